@@ -41,8 +41,8 @@ class C01(Prop):
     ]
     WORKERS = 10
     MODEL_NEEDS_IMPL = True  # ownership traces: mutation steps send the mutated object's observed state
-    LEVEL_TEXT = 'Lean 4 theorems over the codec, store and heap models: sqlite_roundtrip / peewee_duration_roundtrip (binary64 on Rat, for every instant from 1833 to 2106 and every duration up to 2^43 us), insert_assigns_fresh_id_B, get_after_insert_B, bulk_insert_B (listing and lookup return the inserted event), store_owns_copy / separated / api_preserves_separation (no client mutation changes an observation, for every reachable heap state); the models are compared with the three real backends on every run (codec cases incl. the 2038-2041 / 2^51 us window, id histories with deletions, ownership traces against the heap model)'
-    LEVEL_NOTE = "trusts: Lean kernel + 3 standard axioms; binary64 model vs hardware (compared every run by C13's fl stream); JSON text and peewee timestamp-text round trips; nested data below the data dict is one heap cell; hypotheses: -2^32*10^6 us < T (1833; covers every 1970 wall-clock date at any offset), 1000 | T, T+D < 2^32*10^6 us, D <= 2^43 us"
+    LEVEL_TEXT = 'Lean 4 theorems over the codec, store and heap models: sqlite_roundtrip (every ms-aligned instant, every duration) / peewee_duration_roundtrip (binary64 on Rat, every duration up to 2^43 us), insert_assigns_fresh_id_B, get_after_insert_B, bulk_insert_B (listing and lookup return the inserted event), store_owns_copy / separated / api_preserves_separation (no client mutation changes an observation, for every reachable heap state); the models are compared with the three real backends on every run (codec cases incl. the 2038-2041 / 2^51 us window, id histories with deletions, ownership traces against the heap model)'
+    LEVEL_NOTE = "trusts: Lean kernel + 3 standard axioms; binary64 model vs hardware (compared every run by C13's fl stream); JSON text and peewee timestamp-text round trips; nested data below the data dict is one heap cell; hypotheses: 1000 | T (sqlite: nothing else since rows are decoded with integers, F24); peewee: D <= 2^43 us"
     TECHNIQUE = "Lean 4 proof (float error bounds on Rat, heap-separation invariant) + differential correspondence"
     RULE = (
         "codec: events with instants uniform over 1970..2100, in the 2038-2041 / 2^51 µs windows, at ms edges, offsets "
@@ -133,8 +133,8 @@ class C01(Prop):
         # ids stay unique (and listing / lookup stay right) when inserts are interleaved with deletions
         for _ in range(ctx.pick(120, 2000)):
             g = storegen.HistGen(rng, nbuckets=2, grid=5)
-            if g.base == storegen.FUTURE_BASE:
-                g.base = storegen.T0  # this property speaks about dates up to 2100
+            if g.base == storegen.FUTURE_BASE or g.base in storegen.FAR_BASES:
+                g.base = storegen.T0  # this property speaks about dates from 1970 to 2100
             g.start()
             for _ in range(rng.randint(4, 25)):
                 b = rng.choice(g.buckets)
